@@ -52,6 +52,8 @@ def apply(m, tmp):
         if not apply({'patch': os.path.join(HERE, m['base'])}, tmp):
             return False
     if 'patch' in m:
+        if not os.path.isabs(m['patch']):
+            m = dict(m, patch=os.path.join(HERE, m['patch']))
         r = subprocess.run(['git', 'apply', '--unsafe-paths', '--directory', tmp, m['patch']], cwd='/', stdout=subprocess.PIPE, stderr=subprocess.STDOUT, text=True)
         if r.returncode != 0:
             r = subprocess.run(['patch', '-p1', '-s', '-d', tmp, '-i', m['patch']], stdout=subprocess.PIPE, stderr=subprocess.STDOUT, text=True)
